@@ -11,7 +11,9 @@ Helper lemmas for `Props/C18Keys.lean`.
 4. `execWith`: basics, growth, the closed form of schedule-independent observations;
 5. factoring a run through the layers present at its start (`Fac`);
 6. runs with at most one cipher layer against `LoginWire.wireGo`;
-7. several logins.
+7. several logins;
+8. RSAES-PKCS1-v1_5; 9. final forms (one / two requests written out); 10. agreement with
+   `Model/Login.lean`; spec predicates and concrete parameters for the refutations and examples.
 -/
 namespace PyCraft.Keys
 open PyCraft PyCraft.Login PyCraft.LoginWire
@@ -1419,6 +1421,222 @@ theorem nodup_draws (f : Nat → Bytes) (n0 k : Nat)
   have := hinj (a - n0) (b - n0) (by omega) (by omega)
     (by rw [show n0 + (a - n0) = a by omega, show n0 + (b - n0) = b by omega]; exact heq)
   omega
+
+/-- Every installed key is a value the secret generator returned (cipher constructor as it is). -/
+theorem keys_from_gen (gen : SecretGen) (P : KeyParams) (p : Bytes → Prop)
+    (hgen : ∀ n, p (gen P.rng n).1) (s : KState) (steps : List Step) (hs : ∀ k ∈ s.keys, p k) :
+    ∀ k ∈ (execWith gen KChan.create P s steps).keys, p k := by
+  induction steps generalizing s with
+  | nil => exact hs
+  | cons a r ih =>
+    rw [execWith_cons]
+    apply ih
+    cases a with
+    | flush =>
+      simp only [stepWith]; split
+      · exact hs
+      · rw [keys_flush]; exact hs
+    | recv e =>
+      simp only [stepWith]; split
+      · exact hs
+      · cases e with
+        | setCompression t => exact hs
+        | pluginRequest i c d => exact hs
+        | success => exact hs
+        | disconnect j => exact hs
+        | encRequest sid pk tok =>
+          let s1 : KState :=
+            if sid ≠ "-" then
+              if P.base.hasToken then
+                { s with nDraws := (gen P.rng s.nDraws).2,
+                         joins := s.joins ++ [P.base.hash sid (gen P.rng s.nDraws).1 pk] }
+              else { s with nDraws := (gen P.rng s.nDraws).2 }
+            else { s with nDraws := (gen P.rng s.nDraws).2 }
+          have h1 : s1.keys = s.keys := by
+            simp only [s1, KState.keys]; split <;> (try split) <;> rfl
+          have h2 : ∀ (pkt : ClientPkt), (s1.writeNow P pkt true).keys = s.keys := by
+            intro pkt
+            rw [← h1]
+            simp only [KState.keys, KState.writeNow]
+            rw [List.map_reverse, List.map_reverse, updates_stackSend_keys]
+          show ∀ k ∈ (match KChan.create (gen P.rng s.nDraws).1 with
+            | .error e => { s1.writeNow P _ true with err := some (.cipher e) }
+            | .ok c => { s1.writeNow P _ true with layers := c :: (s1.writeNow P _ true).layers }
+            : KState).keys, p k
+          cases hc : KChan.create (gen P.rng s.nDraws).1 with
+          | error e =>
+            intro k hk
+            exact hs k (by rw [← h2]; exact hk)
+          | ok c =>
+            intro k hk
+            have hk' : k ∈ (s1.writeNow P
+                (.encResp (P.base.rsa.enc pk (gen P.rng s.nDraws).1) (P.base.rsa.enc pk tok))
+                true).keys ++ [c.key] := by
+              simpa [KState.keys] using hk
+            rcases List.mem_append.mp hk' with hk' | hk'
+            · exact hs k (by rw [← h2]; exact hk')
+            · simp only [List.mem_singleton] at hk'
+              rw [hk', (create_ok_inv _ _ hc).2]
+              exact hgen _
+
+theorem logins_keys_from_gen (gen : SecretGen) (P : KeyParams) (p : Bytes → Prop)
+    (hgen : ∀ n, p (gen P.rng n).1) (n : Nat) (runs : List (Nat × List Step)) :
+    ∀ k ∈ (loginsWith gen KChan.create P n runs).flatMap KState.keys, p k := by
+  induction runs generalizing n with
+  | nil => intro k hk; cases hk
+  | cons r rest ih =>
+    obtain ⟨gap, steps⟩ := r
+    intro k hk
+    simp only [loginsWith, List.flatMap_cons, List.mem_append] at hk
+    rcases hk with hk | hk
+    · exact keys_from_gen gen P p hgen (.init (n + gap)) steps (by intro k hk; cases hk) k hk
+    · exact ih _ k hk
+
+/-! ## 10. agreement with `Model/Login.lean` while at most one request has been reached -/
+
+theorem writeAll_log (P : KeyParams) (s : KState) (ps : List ClientPkt) :
+    (writeAll P s ps).log =
+        s.log ++ ps.map (fun p => (⟨p, !s.layers.isEmpty, s.threshold, false⟩ : Sent)) ∧
+      (writeAll P s ps).layers.isEmpty = s.layers.isEmpty := by
+  induction ps generalizing s with
+  | nil => simp [writeAll]
+  | cons p ps ih =>
+    obtain ⟨i1, i2⟩ := ih (s.writeNow P p false)
+    rw [writeAll_cons, i1, i2]
+    have hl : (s.writeNow P p false).layers.isEmpty = s.layers.isEmpty := by
+      simp only [KState.writeNow]; exact updates_stackSend_isEmpty _ _
+    refine ⟨?_, hl⟩
+    rw [hl]
+    simp [KState.writeNow]
+
+/-- The login model's state `cs` and this model's state `ks` agree on everything the login model
+has. -/
+structure Sim (cs : ClientState) (ks : KState) : Prop where
+  log : ks.log = cs.outbox
+  threshold : ks.threshold = cs.threshold
+  reactor : ks.reactor = cs.reactor
+  queue : ks.queue = cs.queue
+  joins : ks.joins = cs.joins
+  err : ks.err = cs.err.map KErr.login
+  enc : cs.encrypted = !ks.layers.isEmpty
+
+/-- Agreement as long as no second draw has been made. -/
+def SimInv (n0 : Nat) (cs : ClientState) (ks : KState) : Prop :=
+  n0 ≤ ks.nDraws ∧ (ks.nDraws ≤ n0 + 1 → Sim cs ks)
+
+theorem Sim.errSome {cs : ClientState} {ks : KState} (h : Sim cs ks) :
+    ks.err.isSome = cs.err.isSome := by
+  rw [h.err]; cases cs.err <;> rfl
+
+theorem nDraws_stepK (P : KeyParams) (s : KState) (a : Step) :
+    s.nDraws ≤ (stepK P s a).nDraws := by
+  cases a with
+  | flush =>
+    simp only [stepWith]; split
+    · exact Nat.le_refl _
+    · rw [(flushQueue_fields P s).1]; exact Nat.le_refl _
+  | recv e =>
+    simp only [stepWith]; split
+    · exact Nat.le_refl _
+    · cases e with
+      | encRequest sid pk tok =>
+        show s.nDraws ≤ (reactK P s (.encRequest sid pk tok)).nDraws
+        rw [reactK_encRequest]; exact Nat.le_succ _
+      | setCompression t => exact Nat.le_refl _
+      | pluginRequest i c d => exact Nat.le_refl _
+      | success => exact Nat.le_refl _
+      | disconnect j => exact Nat.le_refl _
+
+theorem SimInv.step (P : KeyParams) (n0 : Nat) {cs : ClientState} {ks : KState}
+    (h : SimInv n0 cs ks) (a : Step) :
+    SimInv n0 (step (P.login (P.rng.draw n0)) cs a) (stepK P ks a) := by
+  obtain ⟨hge, hsim⟩ := h
+  have hmono := nDraws_stepK P ks a
+  refine ⟨Nat.le_trans hge hmono, fun hle => ?_⟩
+  have hs := hsim (Nat.le_trans hmono hle)
+  cases a with
+  | flush =>
+    simp only [stepWith, Login.step, hs.errSome]
+    split
+    · exact hs
+    · obtain ⟨l1, l2⟩ := writeAll_log P ks ks.queue
+      obtain ⟨f1, f2, f3, f4, f5, f6, -⟩ := flushQueue_fields P ks
+      refine ⟨?_, by rw [f2]; exact hs.threshold, by rw [f3]; exact hs.reactor, by rw [f4]; rfl,
+        by rw [f5]; exact hs.joins, by rw [f6]; exact hs.err, ?_⟩
+      · show (writeAll P ks ks.queue).log = _
+        rw [l1, hs.log, hs.queue, hs.threshold, ← hs.enc]; rfl
+      · show cs.encrypted = !(writeAll P ks ks.queue).layers.isEmpty
+        rw [l2]; exact hs.enc
+  | recv e =>
+    simp only [stepWith, Login.step, hs.errSome, hs.reactor]
+    split
+    · exact hs
+    · cases e with
+      | setCompression t =>
+        exact ⟨hs.log, rfl, hs.reactor, hs.queue, hs.joins, hs.err, hs.enc⟩
+      | success => exact ⟨hs.log, hs.threshold, rfl, hs.queue, hs.joins, hs.err, hs.enc⟩
+      | disconnect j =>
+        exact ⟨hs.log, hs.threshold, hs.reactor, hs.queue, hs.joins, rfl, hs.enc⟩
+      | pluginRequest i c d =>
+        refine ⟨hs.log, hs.threshold, hs.reactor, ?_, hs.joins, hs.err, hs.enc⟩
+        show ks.queue ++ [pluginReply P.base i c d] = cs.queue ++ [pluginReply _ i c d]
+        rw [hs.queue]; rfl
+      | encRequest sid pk tok =>
+        rename_i hguard
+        have hk : ¬ (ks.err.isSome || ks.reactor == Reactor.play) = true := by
+          rw [hs.errSome, hs.reactor]; exact hguard
+        have hstep : stepK P ks (.recv (.encRequest sid pk tok)) =
+            reactK P ks (.encRequest sid pk tok) := by
+          simp only [stepWith]; rw [if_neg hk]
+        have hle' : (reactK P ks (.encRequest sid pk tok)).nDraws ≤ n0 + 1 := by
+          rw [← hstep]; exact hle
+        show Sim _ (reactK P ks (.encRequest sid pk tok))
+        rw [reactK_encRequest] at hle' ⊢
+        have hn : ks.nDraws = n0 := by
+          have : ks.nDraws + 1 ≤ n0 + 1 := hle'
+          omega
+        obtain ⟨o1, o2⟩ := react_encRequest (P.login (P.rng.draw n0)) cs sid pk tok
+        refine ⟨?_, ?_, ?_, ?_, ?_, ?_, ?_⟩
+        · show ks.log ++ _ = _
+          rw [o1, hs.log, hs.threshold, ← hs.enc, hn]; rfl
+        · show ks.threshold = _
+          rw [hs.threshold]
+          by_cases h1 : sid = "-" <;> by_cases h2 : P.base.hasToken = true <;>
+            simp [react, ClientState.writeNow, KeyParams.login, h1, h2]
+        · show ks.reactor = _
+          rw [hs.reactor]
+          by_cases h1 : sid = "-" <;> by_cases h2 : P.base.hasToken = true <;>
+            simp [react, ClientState.writeNow, KeyParams.login, h1, h2]
+        · show ks.queue = _
+          rw [hs.queue, react_encRequest_queue]
+        · show ks.joins ++ joinOf P (P.rng.draw ks.nDraws) sid pk = _
+          rw [hs.joins, hn]
+          by_cases h1 : sid = "-" <;> by_cases h2 : P.base.hasToken = true <;>
+            simp [react, ClientState.writeNow, KeyParams.login, joinOf, h1, h2]
+        · show ks.err = _
+          rw [hs.err]
+          by_cases h1 : sid = "-" <;> by_cases h2 : P.base.hasToken = true <;>
+            simp [react, ClientState.writeNow, KeyParams.login, h1, h2]
+        · rw [o2]; rfl
+
+theorem SimInv.exec (P : KeyParams) (n0 : Nat) {cs : ClientState} {ks : KState}
+    (h : SimInv n0 cs ks) (steps : List Step) :
+    SimInv n0 (exec (P.login (P.rng.draw n0)) cs steps) (execK P ks steps) := by
+  induction steps generalizing cs ks with
+  | nil => exact h
+  | cons a r ih =>
+    show SimInv n0 _ (execWith genUrandom KChan.create P ks (a :: r))
+    rw [exec_cons, execWith_cons]
+    exact ih (h.step P n0 a)
+
+theorem sim_final (P : KeyParams) (n0 : Nat) (steps : List Step)
+    (h1 : (reqs (processed (events steps))).length ≤ 1) :
+    Sim (exec (P.login (P.rng.draw n0)) .init steps) (execK P (.init n0) steps) := by
+  have h0 : SimInv n0 ClientState.init (KState.init n0) :=
+    ⟨Nat.le_refl _, fun _ => ⟨rfl, rfl, rfl, rfl, rfl, rfl, rfl⟩⟩
+  have := (h0.exec P n0 steps).2
+  apply this
+  rw [(keys_execK P n0 steps).1]; omega
 
 /-! ### specifications as predicates on the two parameters of `reactWith` (for the refutations) -/
 
